@@ -41,11 +41,12 @@ GNext ==
                    ArchiveCrash(w, K) /\ E1("ArchiveCrash", w, 0, K)
        \* canonical parameters only: staleness and chain errors of groups the
        \* registry does not ask about make no difference
-       \/ \E latest \in Wallets \cup {0} : \E S \in SUBSET (KnownSet \ {latest}) :
-             \E EE \in SUBSET (KnownSet \ (S \cup {latest})), F \in SUBSET S :
+       \* (the chain may well report the latest group as stale: it must not be asked)
+       \/ \E latest \in Wallets \cup {0} : \E S \in SUBSET KnownSet :
+             \E EE \in SUBSET (KnownSet \ (S \cup {latest})), F \in SUBSET (S \ {latest}) :
                 Unregister(latest, S, EE, F)
                 /\ E("Unregister", 0, 0, {}, latest, S, EE, F, Eligible(latest, S, EE) \ F, Eligible(latest, S, EE))
-       \/ \E latest \in Wallets \cup {0} : \E S \in SUBSET (KnownSet \ {latest}) : \E A \in (SUBSET S) \ {{}} :
+       \/ \E latest \in Wallets \cup {0} : \E S \in SUBSET KnownSet : \E A \in (SUBSET (S \ {latest})) \ {{}} :
              \E K \in Skips(Archived(cur, arch, A)[1]) :
                 UnregisterCrash(latest, S, A, K)
                 /\ E("UnregisterCrash", 0, 0, K, latest, S, {}, {}, A, Eligible(latest, S, {}))
